@@ -324,8 +324,7 @@ def check(run):
         run.coverage["release_build_cases"] = n2
         report_diffs(run, diffs2, "coq/Encoding.v", "release build of zvt_builder::encoding", "prim")
     oracle(run, bins["prim"])
-    if any(not v.get("no_failing_input_found") for v in run.violations):
-        run.violations = [v for v in run.violations if not v.get("no_failing_input_found")]
+    vlib.prefer_concrete(run)
     return vlib.finish(run, trusted_base=TB, assumptions=["64-bit usize", "chrono calendar validity modelled in Gallina",
                                                            "yore CP437 table = coq/Cp437.v (all 256 bytes compared)"])
 
